@@ -11,7 +11,7 @@ package detect
 //@   ensures len(r0) == 15 && off(r0) == 0 && fresh(r0)
 //@   ensures forall i int :: {r0[i]} 0 <= i && i < 15 ==> r0[i] != nil && r0[i].Q == app(runnerOf(i), data).Q && r0[i].Pass == app(runnerOf(i), data).Pass && r0[i].P == app(runnerOf(i), data).P
 //@   loop 1
-//@     invariant len(results) == 15 && off(results) == 0 && fresh(results)
+//@     invariant len(results) == 15 && off(results) == 0 && fresh(results) && 0 <= $i && $i <= 15
 //@     invariant forall i int :: {results[i]} 0 <= i && i < $i ==> results[i] != nil && results[i].Q == app(runnerOf(i), data).Q && results[i].Pass == app(runnerOf(i), data).Pass && results[i].P == app(runnerOf(i), data).P
 //@   assert in loop 1: TestMethodArr[$i].Runner == runnerOf($i)
 
@@ -21,7 +21,7 @@ package detect
 //@   ensures len(r0) == 12 && off(r0) == 0 && fresh(r0)
 //@   ensures forall i int :: {r0[i]} 0 <= i && i < 12 ==> r0[i] != nil && r0[i].Q == app(runnerOf(i), data).Q && r0[i].Pass == app(runnerOf(i), data).Pass && r0[i].P == app(runnerOf(i), data).P
 //@   loop 1
-//@     invariant len(results) == 12 && off(results) == 0 && fresh(results)
+//@     invariant len(results) == 12 && off(results) == 0 && fresh(results) && 0 <= $i && $i <= 12 && len(arr) == 12
 //@     invariant forall i int :: {results[i]} 0 <= i && i < $i ==> results[i] != nil && results[i].Q == app(runnerOf(i), data).Q && results[i].Pass == app(runnerOf(i), data).Pass && results[i].P == app(runnerOf(i), data).P
 //@   assert in loop 1: arr[$i].Runner == runnerOf($i)
 
